@@ -17,7 +17,7 @@ var c01ParallelLists = map[string]string{
 // just been emptied and is being refilled by the loop (the list of reported footnotes).
 func c01RangeIndexSlices(c *core.Check) {
 	p := c.Prog
-	r := c.Rule("R20", "a range index cuts the list it ranges over: every slice expression whose lower bound is the index of a range loop is taken on the list the loop ranges over (same field of the same value, or same local), or on a named sibling list of the same length", 5)
+	r := c.Rule("R20", "a range index cuts the list it ranges over: every slice expression whose lower bound is the index of a range loop is taken on the list the loop ranges over (same field of the same value, or same local), or on a named sibling list of the same length", 3)
 	n := 0
 	for _, fn := range p.ModFuncs {
 		if fn.Blocks == nil {
